@@ -36,6 +36,9 @@
                                       sequence, group and entries; add_song is the fold over exactly these
     * C10_stored_once                 offsets of non-empty bank entries are equal iff the bytes are equal iff
                                       it is the same entry; equal PCM headers iff equal address, pitch code, size
+    * C10_song_resolves_partial       every song of every history whose file the spec reader accepts passes the
+                                      spec's executable per-song resolver `LinkSpec.songOk` at its song number
+                                      (PARTIAL: D11 hypothesis, bank below 4 GiB)
   `C10_full_statement` keeps the whole-history statement against the spec resolver; what is
   missing from it is said there.
 -/
@@ -44,6 +47,7 @@ import Ctrmml.Proofs.Wave
 import Ctrmml.Proofs.LinkHist
 import Ctrmml.Proofs.LinkRead
 import Ctrmml.Proofs.LinkStored
+import Ctrmml.Proofs.LinkResolve
 import Ctrmml.Spec.Link
 namespace Ctrmml.Linker
 open Ctrmml
@@ -448,46 +452,6 @@ theorem C10_offset_window_counterexample :
 
 /-! ### whole histories -/
 
-/-- The 8-byte data-bank entry `e` is a PCM header that serves `bytes` at `rate`: its first word is
-a 24-bit address `p` with the pitch code of `rate` (the spec's `pitchOf`: units of 17500/8 Hz, rounded,
-within 1..8) in the top byte, its second word the number of
-bytes; the PCM bank `pcm` (what `get_pcm_data` returns) contains `[p, p + size)`, shows exactly
-`bytes` there, and the window does not cross a boundary of the `bankSize`-byte banks unless the
-sample is larger than a bank. -/
-def PcmHeaderServes (e pcm : Bytes) (bankSize rate : Nat) (bytes : Bytes) : Prop :=
-  ∃ p, e.length = 8 ∧ LinkSpec.nat32be e 0 = some (p + LinkSpec.pitchOf rate * 16777216) ∧ p < 16777216 ∧
-    LinkSpec.nat32be e 4 = some bytes.length ∧
-    p + bytes.length ≤ pcm.length ∧ LinkSpec.readAt pcm p bytes.length = bytes ∧ Alloc.bankRule bankSize ⟨p, bytes.length⟩
-
-/-- Patch-table entry `q = (slot address, value)` of a linked song serves what the song's file carried
-for that slot: the value is (the low 16 bits of) the index of a data-bank entry which is the carried
-data itself (`glob`; bit 15 = the flag of the id) or a PCM header serving the carried sample bytes at
-the carried rate in the linker's current PCM bank (`pcmh`). -/
-def Serves (l : Linker) (q : Nat × Nat) : Carried → Prop
-  | .data addr flag bytes => q.1 = addr ∧
-      ∃ idx, q.2 = (if flag then idx % 65536 ||| 0x8000 else idx % 65536) ∧ l.dataBank[idx]? = some bytes
-  | .pcm addr hdr bytes => q.1 = addr ∧ bytes.length = hdr.size ∧
-      ∃ idx e, q.2 = idx % 65536 ∧ l.dataBank[idx]? = some e ∧ PcmHeaderServes e (getPcmData l) l.wave.bankSize hdr.rate bytes
-
-theorem serves_of_resolves (l : Linker) (rs : List Alloc.Win) (inv : Wave.Inv l.wave rs) (h24 : l.wave.maxSize < 16777216)
-    (q : Nat × Nat) (c : Carried) (h : Resolves l.dataBank l.wave q c) : Serves l q c := by
-  cases c with
-  | data addr flag bytes => exact h
-  | pcm addr hdr bytes =>
-    obtain ⟨h1, idx, h2, e1, e2, e3, e4, e5, e6, e7⟩ := h
-    obtain ⟨w1, w2, w3, w4⟩ := window_facts l rs inv h2 e3 e4
-    have hcur := inv.curLe
-    have hrl := inv.romLen
-    have hlen : bytes.length = h2.size := by
-      rw [← e7]; simp only [Alloc.Win.reads, List.length_take, List.length_drop]; omega
-    obtain ⟨f1, f2, f3⟩ := pcmHeader_fields h2 (by rw [e4]; omega) (by omega)
-    refine ⟨h1, by rw [hlen, e5], idx, _, e1, e2, h2.position, f3, ?_, by omega, ?_, ?_, ?_, ?_⟩
-    · rw [f1, e4, e6, Nat.add_zero, pitchCode_eq_pitchOf]
-    · rw [f2, hlen]
-    · rw [hlen]; exact w2
-    · rw [hlen, w3, e7]
-    · rw [hlen]; exact w4
-
 /-- PCM regions and data entries over whole histories (PARTIAL — the extra hypothesis is `hD11`: every
 PCM header in the added files has start offset 0, the exclusion the known finding D11 forces.  Before
 fix 8d3c42d a second one was needed: at most 65536 sample headers, because `add_song` narrowed the
@@ -709,6 +673,57 @@ example : ∃ l bank, getSeqData l = .ok bank ∧ l.dataBank.Nodup ∧ l.dataBan
   ⟨{ dataBank := [[7, 8, 9], [1]], seqBank := [([66], [{ filename := [97], data := [0, 2, 0, 0, 5], patch := [(2, 1)] }])],
      wave := Wave.Bank.new 16 4 }, _, rfl, by decide, rfl, by decide⟩
 
+/-! ### the spec's per-song resolver on every song of every history -/
+
+/-- Every song of the linked bank passes the spec's executable per-song resolver (PARTIAL: `hD11` as in
+C10_pcm_histories_partial; `hbl`: the linked bank is shorter than 4 GiB, the range of the 32-bit table
+entries).  For EVERY history a fresh linker runs without error and every successful `get_seq_data`:
+song number `i + 1` of the bank was added from one of the files under its name, and if that file is
+one the spec reader accepts (`parseMds file = some s`), then `LinkSpec.songOk bank pcm i s` — the
+resolver the judge runs on the real output — returns ok: the table entry `i` holds an even offset,
+the bytes there equal the song's outside its pointer slots, and every slot resolves: the pointer word
+keeps the flag bit and addresses a bank entry that begins with the carried data, or is a PCM header
+with the rate's pitch code and the sample's size whose 24-bit address selects exactly the sample's
+bytes in the PCM bank `get_pcm_data` returns.  (What `resolveBank` adds on top: that song `i + 1` is
+the `i`-th of `LinkSpec.ordered`, the span/area checks and the list-level stored-once test.) -/
+theorem C10_song_resolves_partial (m bk : Nat) (hm : 0 < m) (hm24 : m < 16777216) (hb : bk < 1073741824)
+    (ops : List Op) (l : Linker) (hrun : runOps ops (Linker.fresh m bk) = .ok l)
+    (hD11 : ∀ name file, Op.add name file ∈ ops → FileStart0 file)
+    (bank : Bytes) (hseq : getSeqData l = .ok bank) (hbl : bank.length < 4294967296) :
+    ∀ (i : Nat) (sd : SeqData), l.songs[i]? = some sd →
+      ∃ name file, Op.add name file ∈ ops ∧ sd.filename = name ∧ (∃ rd, readSong file = some rd ∧ sd.data = rd.seq) ∧
+        ∀ s, LinkSpec.parseMds file = some s → ∃ r, LinkSpec.songOk bank (getPcmData l) i s = .ok r := by
+  obtain ⟨hsongs, hnd, _, _⟩ := C10_pcm_histories_partial m bk hm hm24 hb ops l hrun hD11
+  intro i sd hs
+  obtain ⟨name, file, rd, hop, hrd, hname, hdata, hall⟩ := hsongs sd (List.mem_of_getElem? hs)
+  refine ⟨name, file, hop, hname, ⟨rd, hrd, hdata⟩, ?_⟩
+  intro s hparse
+  obtain ⟨rd', r1, r2, r3, r4, r5, r6, r7, r8⟩ := readSong_of_parseMds file s hparse
+  rw [hrd] at r1
+  have hrr : rd = rd' := Option.some.inj r1
+  subst hrr
+  have hlen := laid_bank_small (getSeqData_laid l bank hseq) hnd
+  have hstart := hD11 name file hop rd hrd
+  have hA : All2 (SlotServed l) sd.patch s.slots := by
+    rw [← r4]
+    refine hall.map_right (toSlot rd.pcmd) ?_
+    intro q c hc hserves
+    apply served_of_serves l hlen rd q c hc hserves
+    have := hstart c hc
+    cases c with
+    | data addr flag bytes => rfl
+    | pcm addr hdr bytes => exact this
+  exact songOk_of l bank hseq hnd hbl i sd hs s (by rw [hdata, r2]) (by omega) hA r5 r6
+
+/-- the hypotheses are met by the two-file history above (song 2 is file B, three slots, two of them PCM) -/
+example : ∃ bank, getSeqData exLinked = .ok bank ∧ bank.length < 4294967296 ∧ exLinked.songs.length = 2 := by
+  have h : (match getSeqData exLinked with | .ok b => decide (b.length < 4294967296) | .error _ => false) = true := by decide +kernel
+  cases hg : getSeqData exLinked with
+  | error e => rw [hg] at h; cases h
+  | ok b =>
+    rw [hg] at h
+    exact ⟨b, rfl, by simpa using h, by decide +kernel⟩
+
 /-- The full statement of C10 over the model, kept for the record: for every list of well-formed
 MDS files (as read by the spec's own reader, PCM start offsets 0) that the linker accepts, the
 spec resolver accepts the linked sequence bank with the linked PCM bank, and the header reader
@@ -724,9 +739,8 @@ serves what the file carried, PCM region inside `get_pcm_data`, pitch code, bank
 NOT proved: the last step, that the executable resolver `LinkSpec.resolveBank` / `resolveHeaders`
 returns `.ok ()` given these facts.  It needs (i) `LinkSpec.ordered songs` (insertion sort of the
 group symbols by `lexLe` over `symbolOf`) = the order of `l.songs` (`seqInsert` by `bytesLt` over
-`keyify`); (ii) `songOk`'s `bodySame`/`mapM' slotOk` from C10_seq_bytes_unchanged, C10_stored_once(1)
-and `Serves` (needs `PatchWf` from the spec's `disjointSlots`, and data-bank index < 2^15 from the
-32 KiB limit); (iii) `increasing` spans and the area checks from the layout; (iv) the list-level
+`keyify`); [(ii) `songOk` for every song at its song number IS proved: C10_song_resolves_partial;]
+(iii) `increasing` spans and the area checks from the layout, the 16-bit song count; (iv) the list-level
 `storedOnce` from C10_stored_once(2); (v) the header text parser (`splitOn`, `natOfDigits ∘ decimal`)
 on `asmHeader`/`cHeader` from C10_identifiers_unique_valid.  The per-case judge runs exactly this
 resolver on the real output. -/
